@@ -7,6 +7,7 @@
    tok 1 n: hook body n      2 e: Stop(e)      3 v: Fatal(v)     4 v: native panic(v)
        5 tree: call          6 tree: defer of a function        7 k n: defer of native k (1..4) with argument n
        8 v: panic(v)         9: recover()      10: recover down  11: return
+       12 tree: call of a native function that calls back the function
    line 0 = no debug information for the instruction.                    *)
 From Coq Require Import List NArith Bool Arith.
 Import ListNotations.
@@ -62,6 +63,11 @@ Fixpoint parse_body (fuel : nat) (s : list N) (pc : nat) : option (list instr * 
           | 9 => cont (IRecover false) rest
           | 10 => cont (IRecover true) rest
           | 11 => cont IReturn rest
+          | 12 =>
+              match parse_body fuel' rest O with
+              | Some (b, binf, rest') => cont (ICallback b binf) rest'
+              | None => None
+              end
           | _ => None
           end
       | _ => None
@@ -97,6 +103,8 @@ Definition enc_outcome (o : outcome) : list N :=
   | OStop e => [12; e]
   | ORunPanics v => [13; v]
   | OCrash => [14]
+  | OCbPanic c => 16 :: N.of_nat (length c) ::
+                  flat_map (fun p => match p with (m, r) => [m; if r : bool then 1 else 0] end) c
   end.
 
 Definition enc_result (r : outcome * list event) : list N :=
